@@ -196,7 +196,10 @@ class SolverWrapper:
                     self.solver.setAttr(gp.GRB.Attr.LB, self._pending_fix_vars, self._pending_fix_vals)
                     self.solver.setAttr(gp.GRB.Attr.UB, self._pending_fix_vars, self._pending_fix_vals)
                 if self._pending_lb_vars:
-                    self.solver.setAttr(gp.GRB.Attr.LB, self._pending_lb_vars, self._pending_lb_vals)
+                    # A variable fixed in the same batch is not released by a smaller lower bound
+                    fixed_values = {id(v): val for v, val in zip(self._pending_fix_vars, self._pending_fix_vals)}
+                    lb_vals = [max(lb, fixed_values.get(id(v), lb)) for v, lb in zip(self._pending_lb_vars, self._pending_lb_vals)]
+                    self.solver.setAttr(gp.GRB.Attr.LB, self._pending_lb_vars, lb_vals)
                 self.solver.update()
 
             elif self.external_solver == "highs":
@@ -218,6 +221,10 @@ class SolverWrapper:
                     lb_by_index = {}
                     for v, lb in zip(self._pending_lb_vars, self._pending_lb_vals):
                         lb_by_index[v.index] = max(lb, lb_by_index.get(v.index, lb))
+                    # A variable fixed in the same batch is not released by a smaller lower bound
+                    for i in lb_by_index:
+                        if i in fix_by_index:
+                            lb_by_index[i] = max(lb_by_index[i], fix_by_index[i])
                     idxs = np.array(sorted(lb_by_index), dtype=np.int32)
                     lbs  = np.array([lb_by_index[i] for i in idxs], dtype=np.float64)
                     # Prefer dedicated lower bound update if available, else fall back to bounds change with UB unchanged
